@@ -118,6 +118,9 @@ def sinks(ctx, site, tr, srcs, injector):
                        "a value that may share memory with the caller's %s is kept inside self." + e.attr)
         elif e.kind == "localmut":
             old = e.d.get("old")
+            if isinstance(old, T.R) and _fresh_container_op(old, e, tr):
+                n += 1   # a work list / stack / dict built here: adding or removing entries does not write into the entries
+                continue
             if isinstance(old, T.R):
                 n += 1
                 report("ESC-mutate", e, "in-place %s of %s does not touch caller data" % (e.how, e.name or "a value"), old,
@@ -132,6 +135,49 @@ def sinks(ctx, site, tr, srcs, injector):
             n += 1
             report("ESC-mutate", e, "in-place .%s() is not applied to caller data" % e.callee[1], e.recv, "in-place method on a value that may be the caller's %s")
     return n
+
+
+_CONTAINER_OPS = {"method:append", "method:pop", "method:extend", "method:insert", "method:clear", "method:remove", "method:popitem",
+                  "method:update", "method:setdefault", "method:appendleft", "method:popleft", "method:add", "method:discard"}
+
+
+def _fresh_container_op(old, e, tr=None):
+    """The mutated object is a list / dict / set created in this function (a literal, a comprehension, list(...), or one of
+    those after earlier entry-level operations) and the operation works on its entries, not inside one of them."""
+    if not (e.how in _CONTAINER_OPS or (e.how == "setitem" and len(e.path) == 1)):
+        return False
+    if e.how != "setitem" and len(e.path) != 0:
+        return False
+    t = old
+    for _ in range(64):
+        a = t.single_atom()
+        if a is None:
+            return False
+        if a[0] in ("list", "dict", "set", "comp"):
+            return True
+        if a[0] == "call" and a[1] in ("list", "dict", "set", "collections.deque", "collections.defaultdict", "collections.OrderedDict"):
+            return True
+        if a[0] in ("appended", "setitem"):
+            t = a[1]
+            continue
+        if a[0] == "mutated" and not a[2]:
+            t = a[1]
+            continue
+        if a[0] == "mutated" and len(a[2]) == 1 and a[3] == "setitem":
+            t = a[1]
+            continue
+        if a[0] == "loopvar" and tr is not None and isinstance(a[2], str) and a[2].startswith("$") and a[1] in tr.loops:
+            # the work list as it stands at the head of a loop: fresh before the loop, never rebound inside it
+            nm = a[2][1:]
+            inloop = lambda x: any((p_.cond.single_atom() or ("",))[:2] == ("inloop", a[1]) for p_ in x.pc)
+            if any(x.name == nm and inloop(x) for x in tr.of("local")):
+                return False
+            t = tr.loops[a[1]]["pre"].locs.get(nm)
+            if t is None:
+                return False
+            continue
+        return False
+    return False
 
 
 def injector_state(ctx, cname, tr):
